@@ -1433,6 +1433,46 @@ def lower_scatter_elementwise(
             mode=mode,
         )
 
+    if "CLIP" in mode_name:
+        # XLA clamps every index component to [0, dim - 1] (the window extent on a scatter axis is 1 here)
+        operand_shape_val = _shape_of(ctx, operand_val, "scatter_operand_shape")
+        axes_sorted = np.asarray(
+            sorted(int(axis) for axis in scatter_axes), dtype=np.int64
+        )
+        dims_vec = _builder_op(
+            ctx,
+            "Gather",
+            [operand_shape_val, _const_i64(ctx, axes_sorted, "scatter_clip_axes")],
+            name_hint="scatter_clip_dims",
+            dtype=ir.DataType.INT64,
+            shape=(index_depth,),
+            attributes={"axis": 0},
+        )
+        max_vec = _builder_op(
+            ctx,
+            "Sub",
+            [dims_vec, _const_i64(ctx, np.asarray([1], dtype=np.int64), "scatter_clip_one")],
+            name_hint="scatter_clip_max",
+            dtype=ir.DataType.INT64,
+            shape=(index_depth,),
+        )
+        nonneg = _builder_op(
+            ctx,
+            "Max",
+            [indices_ordered, _const_i64(ctx, np.asarray([0], dtype=np.int64), "scatter_clip_zero")],
+            name_hint="scatter_clip_nonneg",
+            dtype=ir.DataType.INT64,
+            shape=(None, index_depth),
+        )
+        indices_ordered = _builder_op(
+            ctx,
+            "Min",
+            [nonneg, max_vec],
+            name_hint="scatter_clip_indices",
+            dtype=ir.DataType.INT64,
+            shape=(None, index_depth),
+        )
+
     reduction_norm = (reduction or "none").lower()
     if reduction_norm not in {"none", "add", "max", "min", "mul"}:
         raise ValueError(f"unsupported scatter reduction '{reduction}'")
